@@ -97,6 +97,21 @@ func checkC10(rd *RunData) []Violation {
 		}
 		return "after-close"
 	}
+	if closeRec != nil {
+		for _, r := range rd.Recs {
+			if r.Op.Kind != "close" && r.Op.Kind != "sleep" && r.Inv < closeRec.Inv && (r.Open || r.Ret > closeRec.Inv) {
+				probe("c10.in-flight-at-close." + r.Op.Kind)
+			}
+			if !closeRec.Open && r.Inv > closeRec.Ret && r.Client == -1 {
+				probe("c10.epilogue-call-after-close")
+			}
+		}
+		for _, l := range rd.Loader {
+			if l.Start < closeRec.Inv && (l.End == 0 || l.End > closeRec.Inv) {
+				probe("c10.loader-running-at-close")
+			}
+		}
+	}
 	if rd.Res.Verdict == "deadlock" || rd.Res.Verdict == "no-progress" {
 		for _, r := range blockedCalls(rd) {
 			if r.Op.Kind == "waitidle" || r.Op.Kind == "sleep" {
